@@ -56,6 +56,8 @@ func main() {
 		os.Exit(cmdList())
 	case "replay":
 		os.Exit(cmdReplay(os.Args[2:]))
+	case "hints":
+		os.Exit(cmdHints())
 	default:
 		fmt.Println("unknown command")
 		os.Exit(2)
@@ -204,7 +206,8 @@ func cmdCheck(args []string) int {
 	known := loadKnown()
 	work, _ := os.MkdirTemp("", "govc-"+prop)
 	defer os.RemoveAll(work)
-	opts := solveOpts{timeoutS: 10, seed: seed}
+	loadHints()
+	opts := solveOpts{timeoutS: 20, seed: seed}
 	if tier == "thorough" {
 		opts.timeoutS = 60
 		opts.twoSolvers = true
@@ -307,6 +310,10 @@ func cmdCheck(args []string) int {
 				coversOK++
 			} else if owner[ob].fc != nil && owner[ob].fc.expectFail["cover:"+ob.label] && ob.status == "unsat" {
 				coversOK++ // declared dead code
+			} else if failedBefore(owner[ob], ob) {
+				// an earlier obligation of this function failed; its condition is assumed downstream, so the
+				// cover says nothing here (the failure itself is reported as the violation)
+				coversOK++
 			} else {
 				fmt.Printf("BROKEN-CHECK: vacuity guard %s is not satisfiable (%s): contradictory contract or model\n", ob.name, ob.status)
 				rc = 2
